@@ -1120,6 +1120,7 @@ class Component(
 
         with _prepare_template(self, context, context_data, metadata) as template:
             component_ctx.template_name = template.name
+            is_template_nested = bool(context.render_context.get(BLOCK_CONTEXT_KEY))
 
             # For users, we expose boolean variables that they may check
             # to see if given slot was filled, e.g.:
@@ -1160,6 +1161,7 @@ class Component(
         deferred_render = self._gen_component_renderer(
             render_id=render_id,
             template=template,
+            is_template_nested=is_template_nested,
             context=context_snapshot,
             metadata=metadata,
             component_path=component_path,
@@ -1232,6 +1234,7 @@ class Component(
         self,
         render_id: str,
         template: Template,
+        is_template_nested: bool,
         context: Context,
         metadata: MetadataItem,
         component_path: List[str],
@@ -1259,7 +1262,8 @@ class Component(
                 # Emit signal that the template is about to be rendered
                 template_rendered.send(sender=template, template=template, context=context)
                 # Get the component's HTML
-                html_content = template.render(context)
+                with _with_template_nested_flag(template, is_template_nested):
+                    html_content = template.render(context)
 
             # Add necessary HTML attributes to work with JS and CSS variables
             updated_html, child_components = set_component_attrs_for_js_and_css(
@@ -1706,11 +1710,27 @@ def _prepare_template(
                 "manually patch the class."
             )
 
-        # Set `Template._djc_is_component_nested` based on whether we're currently INSIDE
-        # the `{% extends %}` tag.
-        # Part of fix for https://github.com/django-components/django-components/issues/508
-        # See django_monkeypatch.py
-        template._djc_is_component_nested = bool(context.render_context.get(BLOCK_CONTEXT_KEY))
-
         with _maybe_bind_template(context, template):
             yield template
+
+
+# Set `Template._djc_is_component_nested` based on whether we're currently INSIDE
+# the `{% extends %}` tag.
+# Part of fix for https://github.com/django-components/django-components/issues/508
+# See django_monkeypatch.py
+#
+# NOTE: The Template instance may be shared with other components, or with plain Django
+#       (e.g. `get_template_name()` returns the instance cached by Django's template loader),
+#       so the flag is set only for the duration of the render and then restored.
+@contextmanager
+def _with_template_nested_flag(template: Template, is_nested: bool) -> Generator[None, Any, None]:
+    has_prev = "_djc_is_component_nested" in template.__dict__
+    prev = template.__dict__.get("_djc_is_component_nested")
+    template._djc_is_component_nested = is_nested
+    try:
+        yield
+    finally:
+        if has_prev:
+            template._djc_is_component_nested = prev
+        else:
+            del template._djc_is_component_nested
